@@ -89,14 +89,14 @@ Definition iso8859_8 (b : Z) : Z :=
 
 (* GSI CCT (two ASCII digits) -> decoder of the text field; Tech 3264 defines 00..04 only, and the Latin
    alphabet is the fallback for anything else *)
+Definition cct_is (cct : list Z) (digit : Z) : bool :=
+  match cct with [a; b] => (a =? 0x30) && (b =? digit) | _ => false end.
 Definition decoder_spec (cct : list Z) : list Z -> text :=
-  match cct with
-  | [0x30; 0x31] => map iso8859_5
-  | [0x30; 0x32] => map iso8859_6
-  | [0x30; 0x33] => map iso8859_7
-  | [0x30; 0x34] => map iso8859_8
-  | _ => decode_iso6937
-  end.
+  if cct_is cct 0x31 then map iso8859_5
+  else if cct_is cct 0x32 then map iso8859_6
+  else if cct_is cct 0x33 then map iso8859_7
+  else if cct_is cct 0x34 then map iso8859_8
+  else decode_iso6937.
 
 (* ================================================================================================ 2 *)
 (* Text field.  Codes (Tech 3264, TTI block, TF):
